@@ -1,13 +1,12 @@
 SPECIFICATION Spec
 CONSTANTS
   Classes = {"OwnBare", "OwnBareCase", "OwnFullSelf", "OwnFullOther", "OwnBareSlash", "OwnBareSpace", "Domain", "SuffixLookalike", "PrefixLookalike", "Truncated", "Empty", "Contact", "ContactFull", "OwnAsResource", "Homoglyph", "PreviousOwnBare"}
-  Wrappers = {"none", "sent", "received", "sentBody", "recvBody", "privSent", "both", "nestedSent", "nestedRecv", "emptyCarbon", "fwdWrongNs", "msgWrongNs", "fwdOnly", "wrongNs"}
-  Inners = {"chatIn", "chatOut", "spoof", "noBody", "error", "rich"}
+  Wrappers = {"none", "sent", "received", "sentBody", "both", "nestedSent", "emptyCarbon"}
+  Inners = {"chatIn"}
   Gens = {"v1", "v2"}
   JidCfgs = {"plain", "nores", "mixed"}
   Hows = {"setJid", "setUserDomain", "assign", "copySetJid"}
   MaxHist = 99
-INVARIANTS TypeOK OnlyOwnBare ExactInner OuterPlain
-PROPERTIES NeverFromOthers
-VIEW View
+VIEW ReconfView
+ACTION_CONSTRAINT EmitReconfBehaviour
 CHECK_DEADLOCK FALSE
